@@ -146,6 +146,81 @@ Section Generic.
     - apply Nat.ltb_lt. exact Hl.
   Qed.
 
+  (** completeness: every pair i < j whose intersection no third row puts outside is returned *)
+  Lemma inner_loop_incl (hs : list (HP F)) (cap i : nat) (hi : HP F) :
+    forall (js : list (HP F)) (j : nat) (acc r : list (V2 F)),
+      inner_loop hs cap i hi js j acc = Ok r -> forall p, In p acc -> In p r.
+  Proof.
+    induction js as [|hj js IH]; intros j acc r; cbn [inner_loop].
+    - intros H. injection H as <-. auto.
+    - destruct (intersect_two_halfplanes hi hj) as [q|]; [|apply IH].
+      destruct (valid_from hs 0 i j q); [|apply IH].
+      destruct (length acc <? cap); [|discriminate].
+      intros H p Hp. apply (IH _ _ _ H). apply in_or_app. now left.
+  Qed.
+
+  Lemma inner_loop_complete (hs : list (HP F)) (cap i : nat) (hi : HP F) :
+    forall (js : list (HP F)) (j : nat) (acc r : list (V2 F)),
+      inner_loop hs cap i hi js j acc = Ok r ->
+      forall idx hj p, nth_error js idx = Some hj -> intersect_two_halfplanes hi hj = Some p ->
+                       valid_from hs 0 i (j + idx) p = true -> In p r.
+  Proof.
+    induction js as [|hj0 js IH]; intros j acc r; cbn [inner_loop].
+    - intros _ [|idx] hj p H; discriminate.
+    - intros H [|idx] hj p Hn Hp Hv.
+      + injection Hn as <-. rewrite Nat.add_0_r in Hv. rewrite Hp, Hv in H.
+        destruct (length acc <? cap); [|discriminate].
+        apply (inner_loop_incl hs cap i hi js (S j) _ r H). apply in_or_app. right. now left.
+      + cbn [nth_error] in Hn. replace (j + S idx) with (S j + idx) in Hv by lia.
+        destruct (intersect_two_halfplanes hi hj0) as [q|]; [|eapply IH; eauto].
+        destruct (valid_from hs 0 i j q); [|eapply IH; eauto].
+        destruct (length acc <? cap); [|discriminate]. eapply IH; eauto.
+  Qed.
+
+  Lemma outer_loop_incl (hs : list (HP F)) (cap : nat) :
+    forall (rest : list (HP F)) (i : nat) (acc r : list (V2 F)),
+      outer_loop hs cap rest i acc = Ok r -> forall p, In p acc -> In p r.
+  Proof.
+    induction rest as [|hi rest IH]; intros i acc r; cbn [outer_loop].
+    - intros H. injection H as <-. auto.
+    - destruct (inner_loop hs cap i hi rest (S i) acc) as [acc'|e] eqn:Hin; cbn [bind]; [|discriminate].
+      intros H p Hp. apply (IH _ _ _ H). eapply inner_loop_incl; eauto.
+  Qed.
+
+  Lemma outer_loop_complete (hs : list (HP F)) (cap : nat) :
+    forall (rest : list (HP F)) (i0 : nat) (acc r : list (V2 F)),
+      outer_loop hs cap rest i0 acc = Ok r ->
+      forall a b hi hj p, nth_error rest a = Some hi -> nth_error rest (a + S b) = Some hj ->
+                          intersect_two_halfplanes hi hj = Some p ->
+                          valid_from hs 0 (i0 + a) (i0 + a + S b) p = true -> In p r.
+  Proof.
+    induction rest as [|h rest IH]; intros i0 acc r; cbn [outer_loop].
+    - intros _ [|a] b hi hj p H; discriminate.
+    - destruct (inner_loop hs cap i0 h rest (S i0) acc) as [acc'|e] eqn:Hin; cbn [bind]; [|discriminate].
+      intros H [|a] b hi hj p Ha Hb Hp Hv.
+      + injection Ha as <-. cbn [Nat.add nth_error] in Hb. rewrite Nat.add_0_r in Hv.
+        apply (outer_loop_incl hs cap rest (S i0) acc' r H).
+        apply (inner_loop_complete hs cap i0 h rest (S i0) acc acc' Hin b hj p Hb Hp).
+        replace (S i0 + b) with (i0 + S b) by lia. exact Hv.
+      + cbn [nth_error Nat.add] in Ha, Hb.
+        apply (IH (S i0) acc' r H a b hi hj p Ha Hb Hp).
+        replace (S i0 + a) with (i0 + S a) by lia. exact Hv.
+  Qed.
+
+  Theorem intersect_halfplanes_complete (hs : list (HP F)) (pts : list (V2 F)) :
+    intersect_halfplanes hs = Ok pts -> forall p, is_vertex hs p -> In p pts.
+  Proof.
+    unfold intersect_halfplanes.
+    destruct (outer_loop hs (3 * length hs) hs 0 []) as [r|e] eqn:Ho; cbn [bind]; [|discriminate].
+    destruct (length r <? 3 * length hs); [|discriminate].
+    intros H p (i & j & hi & hj & Hij & Hi & Hj & Hp & Hall). injection H as <-.
+    apply (outer_loop_complete hs (3 * length hs) hs 0 [] r Ho i (j - S i) hi hj p Hi).
+    - replace (i + S (j - S i)) with j by lia. exact Hj.
+    - exact Hp.
+    - cbn [Nat.add]. replace (i + S (j - S i)) with j by lia.
+      apply valid_from_spec. intros idx hk Hk Hki Hkj. cbn [Nat.add] in Hki, Hkj. apply (Hall idx hk Hk Hki Hkj).
+  Qed.
+
   (** membership is preserved by the ordering and de-duplication steps *)
   Lemma permute_in (pts : list (V2 F)) : forall perm r, permute pts perm = Ok r -> forall v, In v r -> In v pts.
   Proof.
